@@ -172,6 +172,9 @@ def run(tier="quick", seed=0, replay=None):
         print(open(replay).read())
         return 1
     core.lean_stage(chk, "C13")
+    from harness import cover
+    _cv = cover.Cover(['ixai/utils/wrappers/river.py', 'ixai/utils/validators/loss.py'])
+    _cv.__enter__()
     quick = tier == "quick"
     metrics = accepted_metrics()
     chk.extra["accepted_metrics"] = [n for n, _, _ in metrics]
@@ -202,6 +205,8 @@ def run(tier="quick", seed=0, replay=None):
                 chk.tie_failure("correspondence:RiverMetricToLossFunction", f"{desc}: impl={impl} model={model}")
     else:
         chk.tie_failure("driver", "model driver not built")
+    _cv.__exit__(None, None, None)
+    cover.gate(chk, _cv, only_functions=['RiverMetricToLossFunction', '_get_loss_function_from_river_metric', 'validate_loss_function'])
     chk.exhaustive = False
     chk.extra["explanation"] = ("loss_pure / probe_leaves_fresh are theorems over an abstract metric with `revert undoes update from fresh`; "
                                 "meanMetric satisfies it (proved). The real adapter is compared with the model on MAE/MSE in exact arithmetic; "
